@@ -55,7 +55,7 @@ fn gen_patterns(rng: &mut Rng, snap: &Snapshot) -> Vec<String> {
     let n = 1 + rng.below(4);
     let mut v = Vec::new();
     for _ in 0..n {
-        let p = match rng.below(13) {
+        let p = match rng.below(17) {
             0 => (*rng.pick(&paths)).clone(),
             1 if !dirs_with_children.is_empty() => (*rng.pick(&dirs_with_children)).clone(),
             2 => rng.pick(&paths).rsplit('/').next().unwrap().to_string(),
@@ -78,6 +78,19 @@ fn gen_patterns(rng: &mut Rng, snap: &Snapshot) -> Vec<String> {
             9 => "[!a-z]*".into(),
             10 => "é*".into(),
             11 if !dirs_with_children.is_empty() => format!("{}/*", rng.pick(&dirs_with_children)),
+            // anchored wildcard before a literal: must match at the root only
+            13 => "/*.txt".into(),
+            14 => format!("/*/{}", rng.pick(&paths).rsplit('/').next().unwrap()),
+            // a '?' or a negated class where a deeper path has its '/': must not match across it
+            15 | 16 if !dirs_with_children.is_empty() => {
+                let d = rng.pick(&dirs_with_children);
+                let kids: Vec<&&String> = paths.iter().filter(|p| p.starts_with(&format!("{d}/")) && p.matches('/').count() == d.matches('/').count() + 1).collect();
+                let last = d.rsplit('/').next().unwrap();
+                match kids.first() {
+                    Some(k) => format!("{last}{}{}", if rng.chance(1, 2) { "?" } else { "[!a]" }, k.rsplit('/').next().unwrap()),
+                    None => format!("{last}?x"),
+                }
+            }
             _ => format!("/{}", *rng.pick(NAMES15)),
         };
         if !v.contains(&p) {
@@ -181,7 +194,7 @@ pub fn run(tier: Tier, replay: Option<Value>) -> i32 {
     let run = Run::new("C15", "exploration", tier, replay);
     run.par_cases(tier.pick(3000, 300000), super::threads(), |c| one_case(&run, c));
     run.finish(
-        "generated trees (depth <= 4, names with extensions, upper/lower case, digits, non-ASCII) x sets of 1-4 exclusion patterns instantiated from the tree: anchored file and directory paths, bare names, '*.ext', '?x', 'd/*/f', '**/n', 'd/**', '[ab]*', '[!a-z]*', 'é*', '/d/*'. Observed: (a) the paths stored by backup(exclude=E) decoded independently, (b) iter_entries(full backup, exclude=E), (c) the paths created by restore(full backup, exclude=E); all three must equal, below the root, the set given by the rule 'omitted iff the path or an ancestor matches a pattern' evaluated with globs the harness builds from the raw patterns (leading '/' anchors at the root, otherwise any depth). Non-trivial = some but not all paths excluded.",
+        "generated trees (depth <= 4, names with extensions, upper/lower case, digits, non-ASCII) x sets of 1-4 exclusion patterns instantiated from the tree: anchored file and directory paths, bare names, '*.ext', '?x', 'd/*/f', '**/n', 'd/**', '[ab]*', '[!a-z]*', 'é*', '/d/*', '/*.ext', '/*/name', 'dir?child' and 'dir[!a]child' (which must not match across the separator). Observed: (a) the paths stored by backup(exclude=E) decoded independently, (b) iter_entries(full backup, exclude=E), (c) the paths created by restore(full backup, exclude=E); all three must equal, below the root, the set given by the rule 'omitted iff the path or an ancestor matches a pattern' evaluated with globs the harness builds from the raw patterns (leading '/' anchors at the root, otherwise any depth). Non-trivial = some but not all paths excluded.",
         &["globset's matcher is trusted for what a single glob matches; anchoring, ancestor propagation and the three code paths are what is checked"],
         None,
         &[("observations_compared", 100), ("cases_excluding_some_but_not_all", 30), ("cases_excluding_a_directory_with_children", 10)],
